@@ -19,7 +19,7 @@ func init() {
 
 func runC15(r *engine.Run) {
 	r.Rule("BOUNDS", "every index expression, slice expression, fixed-size decode destination and fixed-width read in the decoder closure (CreateNode, the node Decode methods, OriginTracker.Read, wmpt.DeserializeNode, Deserialize, deserializeTrie, VerifyBlockProof, verifyProof and the Serialize/CalcHash/Encode they reach) is discharged by a guard that holds on every feasible path: constant index within a fixed array, loop variable under a constant bound <= array length, index under a dominating i < len(x), index/slice bound returned by bytes.IndexByte under a dominating idx < 0 -> return, constant slice bounds under a dominating len(x) >= k (or == k), hex.Decode into n bytes under len(src) <= 2n; anything else is reported")
-	r.Rule("NO-PANIC", "no explicit panic is reachable from a decoder entry, except three named ones whose precondition is established structurally")
+	r.Rule("NO-PANIC", "no explicit panic is reachable from a decoder entry, except three named ones whose precondition is established structurally; and no unchecked type assertion x.(T) to a concrete type occurs in the decoder closure unless x was built with T there or a comma-ok test of the same value for T holds on every path (the kind of a decoded node is chosen by the input)")
 	r.Rule("NILWIRE", "every pointer decoded from the wire (elements of PersistTrie.Pairs, the five alternatives of PersistNodeBase) is dereferenced only on paths where it tested non-nil (CBOR null decodes to a nil pointer)")
 	r.Rule("NILIFACE", "in the decoder closure no possibly-nil pointer is converted to an interface (a typed nil inside an interface defeats the `== nil` guards of the encoders, which then dereference it)")
 	r.Rule("ORDER-progress", "each recursive call of verifyProof / deserializeTrie is dominated by the bounds test of the cursor and by its increment: the recursion consumes one proof element per call and terminates")
@@ -637,6 +637,42 @@ var panicExceptions = map[string]string{
 
 func noPanicIn(r *engine.Run, f *ssa.Function, entries []*ssa.Function, g *engine.RepoCG) {
 	const rule = "NO-PANIC"
+	// an unchecked type assertion x.(T) panics when x holds another kind. In the
+	// decoder closure the kind of a node comes from the wire (DeserializeNode
+	// copies hashes verbatim, so equal hashes do not imply equal kinds): the
+	// assertion needs the comma-ok form, or a dominating test of the same value
+	// for the same type.
+	ota := ord{}
+	engine.Instrs(f, func(in ssa.Instruction) {
+		ta, ok := in.(*ssa.TypeAssert)
+		if !ok || ta.CommaOk {
+			return
+		}
+		if _, isIface := ta.AssertedType.Underlying().(*types.Interface); isIface {
+			return
+		}
+		cons := ota.next(fn(f) + "|type assertion")
+		// the operand was built here with that type
+		if mi, ok := ta.X.(*ssa.MakeInterface); ok && types.Identical(mi.X.Type(), ta.AssertedType) {
+			r.OK(rule, cons, r.P.Pos(ta.Pos()), "operand built with the asserted type")
+			return
+		}
+		established := false
+		if facts, okf := engine.FactsOn(f, ta.Block()); okf {
+			for _, ft := range facts {
+				if ft.Kind != "bool" || !ft.Truth {
+					continue
+				}
+				if ex, ok := ft.A.(*ssa.Extract); ok && ex.Index == 1 {
+					if t2, ok := ex.Tuple.(*ssa.TypeAssert); ok && t2.X == ta.X && types.Identical(t2.AssertedType, ta.AssertedType) {
+						established = true
+					}
+				}
+			}
+		}
+		r.Check(established, rule, cons, r.P.Pos(ta.Pos()), "the same value tested to hold the asserted type on every path",
+			"an unchecked type assertion to "+ta.AssertedType.String()+" in the decoder closure: the kind of a decoded node is chosen by the input (a hash, value or shared-prefix pair can carry any hash), so near-valid bytes make the assertion panic instead of returning an error")
+	})
 	engine.Instrs(f, func(in ssa.Instruction) {
 		p, ok := in.(*ssa.Panic)
 		if !ok {
